@@ -497,7 +497,8 @@ class Exec:
 
     def mk_tuple(self, items, kind):
         if items and all(isinstance(i, (VSet,)) for i in items) or items and all(isinstance(i, VStr) for i in items) \
-                or items and all(isinstance(i, VNum) for i in items) or items and all(isinstance(i, VRec) for i in items):
+                or items and all(isinstance(i, VNum) for i in items) \
+                or items and all(isinstance(i, VRec) for i in items) and len({i.cls for i in items}) == 1:  # records of ONE class only
             if all(isinstance(i, VNum) for i in items):
                 k = "int" if all(i.kind == "int" for i in items) else "real"
                 es = S.Int if k == "int" else S.Real
